@@ -12,16 +12,26 @@ import tempfile
 from vlib import common
 
 
-def make_sequence(n_atoms=2, duration=20, amp=3.1, det=0.5, spacing=7.0, local_shift=0.35):
-    """A short constant pulse on a slightly irregular chain (irregular so that qubit orderings differ)."""
+def make_sequence(n_atoms=2, duration=20, amp=3.1, det=0.5, spacing=7.0, local_shift=0.35, order=None,
+                  local=None):
+    """A short constant global pulse on a slightly irregular chain (irregular so that qubit orderings differ).
+    order: atom q_i sits at chain position order[i] (atoms listed out of chain order => the optimiser reorders).
+    local: {"target": i, "amp":, "det":, "phase":} adds a simultaneous pulse on a local channel addressing q_i,
+    so that the omega/delta/phi columns of the atoms differ."""
     import pulser
 
-    reg = pulser.Register({f"q{i}": (spacing * i + local_shift * i * i, 0.0) for i in range(n_atoms)})
+    xs = [spacing * i + local_shift * i * i for i in range(n_atoms)]
+    order = list(order) if order is not None else list(range(n_atoms))
+    reg = pulser.Register({f"q{i}": (xs[order[i]], 0.0) for i in range(n_atoms)})
     seq = pulser.Sequence(reg, pulser.MockDevice)
     seq.declare_channel("ch", "rydberg_global")
     seq.add(pulser.Pulse.ConstantAmplitude(amplitude=amp,
                                            detuning=pulser.waveforms.ConstantWaveform(duration, det),
                                            phase=0.0), "ch")
+    if local is not None:
+        seq.declare_channel("loc", "rydberg_local", initial_target=f"q{local['target']}")
+        seq.add(pulser.Pulse.ConstantPulse(duration, local["amp"], local["det"], local["phase"]), "loc",
+                protocol="no-delay")
     return seq
 
 
